@@ -151,24 +151,65 @@ func goBin() string {
 	return "go1.26.8"
 }
 
+// autoNote says how the last build treated the mechanically inserted
+// preemption points (for the evidence file).
+var autoNote string
+
 // build compiles the worker test binary of an engine from /repo's current tree.
+// For the cache engine the tree is first copied and instrumented by
+// cmd/autoyield (preemption points in front of every mutex and atomic
+// operation of the root package, also those a change has added); if that copy
+// does not build - the rewrite is mechanical and a change may contain a
+// construct it mishandles - the plain tree is used and the evidence says so.
 func build(engine string, race bool) string {
 	out := filepath.Join(verifRoot, ".build", engine)
 	if race {
 		out += "-race"
 	}
 	out += ".test"
-	args := []string{"test", "-c", "-tags", "verif", "-o", out}
-	if alt := os.Getenv("VERIF_REPO"); alt != "" && alt != repoRoot {
+	repo := repoRoot
+	if alt := os.Getenv("VERIF_REPO"); alt != "" {
 		// background sweeps (vp run --with-repo) build against a snapshot of the
 		// repository instead of /repo itself; registered checks never set this
+		repo = alt
+	}
+	if engine == "cachesim" && os.Getenv("VERIF_AUTOYIELD") != "0" {
+		inst := filepath.Join(verifRoot, ".build", "repo-auto")
+		tool := filepath.Join(verifRoot, ".build", "autoyield")
+		tb := exec.Command(goBin(), "build", "-o", tool, "./cmd/autoyield")
+		tb.Dir = filepath.Join(verifRoot, "sim")
+		tb.Env = env()
+		if o, err := tb.CombinedOutput(); err != nil {
+			die2("build of the autoyield tool failed: %v\n%s", err, o)
+		}
+		ay := exec.Command(tool, repo, inst)
+		ay.Env = env()
+		if o, err := ay.CombinedOutput(); err != nil {
+			autoNote = "automatic preemption points: not inserted (" + strings.TrimSpace(firstLines(string(o), 3)) + "); hand-placed yield sites only"
+		} else if msg, ok := tryBuild(engine, race, out, inst, "verif,autoyield"); ok {
+			autoNote = "automatic preemption points: " + strings.TrimSpace(string(o))
+			return out
+		} else {
+			autoNote = "automatic preemption points: the instrumented copy did not build, hand-placed yield sites only (" + firstLines(msg, 4) + ")"
+		}
+	}
+	msg, ok := tryBuild(engine, race, out, repo, "verif")
+	if !ok {
+		die2("build of %s failed:\n%s", engine, msg)
+	}
+	return out
+}
+
+func tryBuild(engine string, race bool, out, repo, tags string) (string, bool) {
+	args := []string{"test", "-c", "-tags", tags, "-o", out}
+	if repo != repoRoot {
 		mod, err := os.ReadFile(filepath.Join(verifRoot, "sim", "go.mod"))
 		if err != nil {
 			die2("read go.mod: %v", err)
 		}
 		altMod := filepath.Join(verifRoot, ".build", "alt.mod")
-		os.WriteFile(altMod, bytes.ReplaceAll(mod, []byte("=> "+repoRoot), []byte("=> "+alt)), 0o644)
-		if sum, err := os.ReadFile(filepath.Join(alt, "go.sum")); err == nil {
+		os.WriteFile(altMod, bytes.ReplaceAll(mod, []byte("=> "+repoRoot), []byte("=> "+repo)), 0o644)
+		if sum, err := os.ReadFile(filepath.Join(repo, "go.sum")); err == nil {
 			os.WriteFile(filepath.Join(verifRoot, ".build", "alt.sum"), sum, 0o644)
 		}
 		args = append(args, "-modfile="+altMod)
@@ -183,9 +224,9 @@ func build(engine string, race bool) string {
 	var buf bytes.Buffer
 	cmd.Stdout, cmd.Stderr = &buf, &buf
 	if err := cmd.Run(); err != nil {
-		die2("build of %s failed: %v\n%s", engine, err, buf.String())
+		return fmt.Sprintf("%v\n%s", err, buf.String()), false
 	}
-	return out
+	return "", true
 }
 
 type workerState struct {
@@ -726,6 +767,9 @@ func check(id, tier string) int {
 	}
 	var notes []string
 	notes = append(notes, fmt.Sprintf("build %.1fs, exploration budget %ds on %d worker processes", buildS, seconds, workers))
+	if autoNote != "" {
+		notes = append(notes, autoNote)
+	}
 
 	// violations of this property, grouped by rule
 	byRule := map[string][]*outLine{}
